@@ -161,55 +161,67 @@ def rules(rep, m):
     # engine XS: abstract execution of the seeding routine - loops unrolled, local arrays and pointers followed, the mixer
     # modelled as "the k-th output since it was seeded with s"
     from ..engines import xs as XS
-    st_mix = {"seeded": None, "k": 0, "sfc": [], "order": []}
+    def make_hook():
+        st_mix = {"seeded": None, "k": 0, "sfc": [], "order": []}
 
-    def hook(ip, nm, args, node):
-        if nm == "splitmix_initialize":
-            st_mix["seeded"] = args[0] if args else None
-            st_mix["k"] = 0
-            ip.globals["splitmix_state"] = st_mix["seeded"]
-            return None
-        if nm == "splitmix64":
-            seeded = ip.globals.get("splitmix_state", st_mix["seeded"])
-            if st_mix["seeded"] is None and isinstance(seeded, str) and seeded.startswith("param:"):
-                st_mix["seeded"] = seeded
-            st_mix["k"] += 1
-            return ("SM", st_mix["seeded"], st_mix["k"])
-        if nm == "cmb_random_sfc64":
-            st_mix["sfc"].append({w: ip.globals.get("prng_state." + w) for w in "abcd"})
-            return ("SFC", len(st_mix["sfc"]))
-        return "call:%s" % nm
+        def hook(ip, nm, args, node):
+            if nm == "splitmix_initialize":
+                st_mix["seeded"] = args[0] if args else None
+                st_mix["k"] = 0
+                ip.globals["splitmix_state"] = st_mix["seeded"]
+                return None
+            if nm == "splitmix64":
+                seeded = ip.globals.get("splitmix_state", st_mix["seeded"])
+                if st_mix["seeded"] is None and isinstance(seeded, str) and seeded.startswith("param:"):
+                    st_mix["seeded"] = seeded
+                st_mix["k"] += 1
+                return ("SM", st_mix["seeded"], st_mix["k"])
+            if nm == "cmb_random_sfc64":
+                st_mix["sfc"].append({w: ip.globals.get("prng_state." + w) for w in "abcd"})
+                return ("SFC", len(st_mix["sfc"]))
+            return "call:%s" % nm
+        hook.st_mix = st_mix
+        return hook
     try:
-        ip = XS.Interp(cx, init, hook).run()
+        ips = XS.run_all(cx, init, make_hook)
     except XS.Undecided as e:
         raise AnalysisBroken("R-C15-3: the seeding routine cannot be executed abstractly (%s)" % e)
-    # a direct store to the mixer state counts as seeding it
-    for ef in ip.effects:
-        if ef[0] == "store" and ef[1] == "splitmix_state" and st_mix["seeded"] is None:
-            st_mix["seeded"] = ef[2]
-    first = st_mix["sfc"][0] if st_mix["sfc"] else {w: ip.globals.get("prng_state." + w) for w in "abcd"}
-    r3.instance("state words at the first generator step: %s; mixer seeded with %s; %d outputs discarded" %
-                ({w: str(v) for w, v in first.items()}, st_mix["seeded"], len(st_mix["sfc"])))
-    rep.sample({"rule": "R-C15-3", "state": {w: str(v) for w, v in first.items()}, "seeded": str(st_mix["seeded"]),
-                "discarded": len(st_mix["sfc"])})
-    ok = True
     want_seed = "param:" + seed
-    if st_mix["seeded"] != want_seed:
-        rep.finding(r3, init.name, "bootstrap:splitmix-seed", "splitmix is not initialised exactly once with the caller's seed "
-                    "(seeded with %s)" % (st_mix["seeded"],), where=m.rel(init.where))
-        ok = False
     wantw = {w: ("SM", want_seed, i_ + 1) for i_, w in enumerate("abcd")}
-    if any(first.get(w) != wantw[w] for w in "abcd"):
-        rep.finding(r3, init.name, "bootstrap:state", "the four state words a, b, c, d are not the first four outputs of the "
-                    "mixer after it was seeded with the caller's seed, in that order (%s)" % {w: str(v) for w, v in first.items()},
-                    where=m.rel(init.where))
-        ok = False
-    same_state = all(sn == first or True for sn in st_mix["sfc"])
-    if len(st_mix["sfc"]) != 20:
-        rep.finding(r3, init.name, "bootstrap:warmup", "the seeding function discards %d generator outputs after setting the "
-                    "state (documented: 20)" % len(st_mix["sfc"]), where=m.rel(init.where))
-        ok = False
-    (r3.ok if ok else r3.fail)(3)
+    seen3 = set()
+    for ip in ips:
+        st_mix = ip.hook.st_mix
+        path = "; ".join("%s is %s" % (c_, d_) for c_, d_ in ip.taken) or "the only path"
+        # a direct store to the mixer state counts as seeding it
+        for ef in ip.effects:
+            if ef[0] == "store" and ef[1] == "splitmix_state" and st_mix["seeded"] is None:
+                st_mix["seeded"] = ef[2]
+        first = st_mix["sfc"][0] if st_mix["sfc"] else {w: ip.globals.get("prng_state." + w) for w in "abcd"}
+        r3.instance("[%s] state words at the first generator step: %s; mixer seeded with %s; %d outputs discarded" %
+                    (path, {w: str(v) for w, v in first.items()}, st_mix["seeded"], len(st_mix["sfc"])))
+        rep.sample({"rule": "R-C15-3", "path": path, "state": {w: str(v) for w, v in first.items()}, "seeded": str(st_mix["seeded"]),
+                    "discarded": len(st_mix["sfc"])})
+        ok = True
+        if st_mix["seeded"] != want_seed:
+            if "seed" not in seen3:
+                rep.finding(r3, init.name, "bootstrap:splitmix-seed", "splitmix is not initialised exactly once with the caller's seed "
+                            "(seeded with %s; path: %s)" % (st_mix["seeded"], path), where=m.rel(init.where))
+            seen3.add("seed")
+            ok = False
+        if any(first.get(w) != wantw[w] for w in "abcd"):
+            if "state" not in seen3:
+                rep.finding(r3, init.name, "bootstrap:state", "the four state words a, b, c, d are not the first four outputs of the "
+                            "mixer after it was seeded with the caller's seed, in that order (%s; path: %s)"
+                            % ({w: str(v) for w, v in first.items()}, path), where=m.rel(init.where))
+            seen3.add("state")
+            ok = False
+        if len(st_mix["sfc"]) != 20:
+            if "warm" not in seen3:
+                rep.finding(r3, init.name, "bootstrap:warmup", "the seeding function discards %d generator outputs after setting the "
+                            "state (documented: 20; path: %s)" % (len(st_mix["sfc"]), path), where=m.rel(init.where))
+            seen3.add("warm")
+            ok = False
+        (r3.ok if ok else r3.fail)(3)
     # splitmix_initialize (if it exists as a function) stores its argument; splitmix64 is the only other writer of its state
     smf = m.funcs.get(m.resolve(init.unit, "splitmix_initialize"))
     if smf is not None:
@@ -327,12 +339,33 @@ def rules(rep, m):
             if x["kind"] != "IfStmt":
                 continue
             c0 = strip(kids(x)[0], casts=True)
-            if not (c0["kind"] == "BinaryOperator" and c0.get("opcode") == "!="):
-                continue
-            sides = [strip(z, casts=True) for z in kids(c0)]
-            key = [z for z in sides if z["kind"] == "DeclRefExpr" and z["ref"]["id"] in statics]
-            par = [z for z in sides if z["kind"] == "DeclRefExpr" and z["ref"]["name"] in params]
-            if len(key) != 1 or len(par) != 1:
+            neg = False
+            while c0["kind"] == "UnaryOperator" and c0.get("opcode") == "!":
+                c0, neg = strip(kids(c0)[0], casts=True), not neg
+            exact = c0["kind"] == "BinaryOperator" and ((c0.get("opcode") == "!=" and not neg) or (c0.get("opcode") == "==" and neg))
+            if exact:
+                sides = [strip(z, casts=True) for z in kids(c0)]
+                key = [z for z in sides if z["kind"] == "DeclRefExpr" and z["ref"]["id"] in statics]
+                par = [z for z in sides if z["kind"] == "DeclRefExpr" and z["ref"]["name"] in params]
+                if len(key) != 1 or len(par) != 1:
+                    exact = False
+            if not exact:
+                # some other test that relates a parameter to one static and guards the recomputation of other statics:
+                # a memo whose key test is not equality
+                ks = {y["ref"]["id"] for y in walk(c0) if y["kind"] == "DeclRefExpr" and y["ref"]["id"] in statics}
+                ps = {y["ref"]["name"] for y in walk(c0) if y["kind"] == "DeclRefExpr" and y["ref"]["name"] in params}
+                wr = {strip(kids(y)[0], casts=True).get("ref", {}).get("id") for y in walk(kids(x)[1])
+                      if y["kind"] in ("BinaryOperator", "CompoundAssignOperator") and y.get("opcode") == "="}
+                if len(ks) == 1 and ps and (wr & set(statics)) - ks:
+                    nmemo += 1
+                    kname = statics[next(iter(ks))]
+                    r6.instance("%s: memo keyed by %s with the key test %s" % (f.name, kname, render(kids(x)[0])[:80]))
+                    rep.finding(r6, f.name, "memo:key-inexact", "%s reuses the values cached for the parameter stored in '%s' whenever "
+                                "'%s' holds - a test that is not 'the parameter equals the key': a call with a parameter that "
+                                "differs from the cached one (by one unit in the last place, say) is answered with the other "
+                                "parameter's constants, so its result depends on what earlier calls on the thread used"
+                                % (f.name, kname, render(kids(x)[0])[:100]), where=m.rel(loc(x)))
+                    r6.fail()
                 continue
             kid_ = key[0]["ref"]["id"]
             block = kids(x)[1]
@@ -377,5 +410,5 @@ def run(tier="quick"):
     rep.not_decided = ["that the arithmetic is sfc64/splitmix64 (constants and shifts)"]
     for m in models:
         rep.configs.append(m.config)
-        rules(rep, m)
+        common.run_rules(rep, m, rules)
     return rep.finish()
